@@ -37,20 +37,24 @@ def bodies(rng):
         "a0": gen.ical(rng, "uid-a", "A0", rich=False), "b0": gen.ical(rng, "uid-b", "B0", rich=False),
         "a1": gen.ical(rng, "uid-a", "A1", rich=False), "a2": gen.ical(rng, "uid-a", "A2", rich=False), "a3": gen.ical(rng, "uid-a", "A3", rich=False),
         "b1": gen.ical(rng, "uid-b", "B1", rich=False), "c": gen.ical(rng, "uid-c", "C", rich=False), "d": gen.ical(rng, "uid-c", "D", rich=False),
-        "e": gen.ical(rng, "uid-c", "E", rich=False), "f": gen.ical(rng, "uid-a", "F", rich=False),
+        "e": gen.ical(rng, "uid-c", "E", rich=False), "f": gen.ical(rng, "uid-a", "F", rich=False), "g": gen.ical(rng, "uid-a", "G", rich=False),
     }
 
 
 # operations executed strictly after the concurrent ones returned, through the store objects
 # that took part in the race: their answers too must be those of a sequential execution
-FOLLOWUPS = [("e.ics", "e", "put-new-name-with-uid-of-c"), ("f.ics", "f", "put-new-name-with-uid-of-a")]
+# (the two puts with a's UID come first and go through different store objects: the second one is issued by a store
+# object that may not have looked at the collection since before the race)
+FOLLOWUPS = [("f.ics", "f", "put-new-name-with-uid-of-a"), ("g.ics", "g", "put-another-new-name-with-uid-of-a"), ("e.ics", "e", "put-new-name-with-uid-of-c")]
 
 
-def run_followups(getters, B):
+def run_followups(getters, B, shift=0):
+    """`shift` rotates which of the participating store objects issues which follow-up (with one store
+    object per thread the two have seen different parts of the history)"""
     out = []
     for k, (name, b, _) in enumerate(FOLLOWUPS):
         try:
-            st = getters[k % len(getters)]()
+            st = getters[(k + shift) % len(getters)]()
             r = ("value", ("ok", st.import_one(name, "text/calendar", [B[b]])[1]))
         except Exception as e:  # noqa
             r = ("exc", e)
@@ -236,7 +240,8 @@ def judge(sc, s, raw, res, cfg, sched_descr):
             ok = True
             matching.append(order)
     if ok and getattr(sc, "last_fac", None):
-        got = run_followups(sc.last_fac, sc.B)
+        sc.nfollow = getattr(sc, "nfollow", 0) + 1
+        got = run_followups(sc.last_fac, sc.B, shift=sc.nfollow % 2)
         sc.last_fac = None
         res.count("followups_judged")
         exp = sorted({follow_of[o] for o in matching})
